@@ -124,6 +124,36 @@ class patched:
 # owning randomness, whichever standard-library door the code under test uses
 # ---------------------------------------------------------------------------
 
+class _FormattingSink(logging.Handler):
+    """what a production handler does to a record, without the output: the message is formatted
+    (arguments are printed); as in logging.StreamHandler.emit a RecursionError propagates to the
+    caller, any other formatting error is swallowed"""
+
+    def emit(self, record):
+        try:
+            record.getMessage()
+        except RecursionError:
+            raise
+        except Exception:   # noqa
+            pass
+
+
+def logging_as_in_production(on=True):
+    """Checks run with logging switched off (speed).  Where what a log call does to its arguments
+    matters (hostile input: a value too deeply nested to print), switch it on: every record of every
+    logger is formatted by a sink handler."""
+    root = logging.getLogger()
+    for h in list(root.handlers):
+        if isinstance(h, _FormattingSink):
+            root.removeHandler(h)
+    if on:
+        logging.disable(logging.NOTSET)
+        root.setLevel(logging.DEBUG)
+        root.addHandler(_FormattingSink())
+    else:
+        logging.disable(logging.CRITICAL)
+
+
 class RandomFacade:
     """Everything ``random`` / ``secrets`` / ``os.urandom`` offer, answered from ONE deterministic
     source ``src`` with a method ``choice(pool)`` (and optionally ``index(n)`` for an integer below
